@@ -770,6 +770,13 @@ def r4_retry(program, rep):
         E1 = ("elem", ("items", UNL))
         it3, k3, D2, c3 = m3[0]
         m2 = T.built_map(D2) if D2[0] == "new" else None
+        if not m2 or len(m2) != 1 or m2[0][0][0] != "items":
+            raise AnalysisError("load_application: the chips of a binary "
+                                "that still have cores to load are not "
+                                "collected by walking the items of that "
+                                "binary's map (they come from a prepared "
+                                "collection or a generator); that form is "
+                                "not analysed")
         oks = k3 == ("comp", E1, 0) and bool(m2) and len(m2) == 1 and \
             m2[0][0] == ("items", ("comp", E1, 1))
     if oks:
